@@ -264,7 +264,7 @@ def random_ops(rng, text):
     ops = []
     cur = text
     for _ in range(rng.choice([1, 1, 1, 2, 2, 3])):
-        kind = rng.choice(["del", "del", "del", "trunc", "swap", "swap", "dup", "ins", "ins", "crlf", "cr"])
+        kind = rng.choice(["del", "del", "del", "trunc", "swap", "swap", "dup", "ins", "ins", "crlf", "cr", "shift", "shift"])
         if kind == "del":
             toks = [m for m in TOKEN_RE.finditer(cur)]
             if not toks:
@@ -282,6 +282,8 @@ def random_ops(rng, text):
             toks = [m for m in TOKEN_RE.finditer(cur)]
             pos = rng.choice(toks).start() if toks and rng.random() < 0.8 else rng.randrange(0, len(cur) + 1)
             op = ["ins", pos, rng.choice(GARBAGE) + rng.choice(["", " "])]
+        elif kind == "shift":
+            op = ["ins", 0, rng.choice(["-- inserted line\n", "\n\n", "   ", "-- a\r\n-- b\r\n"])]
         else:
             op = [kind]
         ops.append(op)
@@ -805,7 +807,7 @@ def run_session(spec, tools, res, stats, sess_rng):
                 raw = ";".join(",".join(str(v) for v in x) for x in hf["raw"])
                 filt = "/".join(["-"] + [",".join(str(v) for v in rg) for rg in ranges])
                 model_in.append("T|%s|%s" % (raw, filt))
-                model_ctx.append(("T", si, f, ranges, [data] + range_answers, report))
+                model_ctx.append(("T", si, f, ranges, [data] + range_answers, report, not probs))
                 model_in.append("O|" + " ".join(str(v) for v in data))
                 model_ctx.append(("O", si, f, ranges, not probs, report))
                 if len(hf["raw"]) <= 60 and len(stats["coq_sample"]) < 24:
@@ -884,7 +886,7 @@ def run_session(spec, tools, res, stats, sess_rng):
         ctx = model_ctx[i]
         line = outs[i]
         if ctx[0] == "T":
-            _, si, f, ranges, answers, report = ctx
+            _, si, f, ranges, answers, report, py_ok = ctx
             new, old = line.split("|")
             parts = new.split("/")
             for j, (part, ans) in enumerate(zip(parts, answers)):
@@ -904,7 +906,7 @@ def run_session(spec, tools, res, stats, sess_rng):
                     report(what, {"correspondence": "vhdl_ls semanticTokens vs RH.Lsp.SemTok.encode (map_and_sort raw)",
                                   "request": "full" if j == 0 else "range", "range": None if j == 0 else ranges[j - 1],
                                   "first_difference_at_index": k0, "impl": ans[max(0, k0 - 10):k0 + 15], "model": mdata[max(0, k0 - 10):k0 + 15],
-                                  "wrap": bool(w)}, nf=True, rngs=None if j == 0 else [ranges[j - 1]])
+                                  "wrap": bool(w)}, nf=py_ok, rngs=None if j == 0 else [ranges[j - 1]])
                     break
         elif ctx[0] == "O":
             _, si, f, ranges, py_ok, report = ctx
